@@ -95,7 +95,7 @@ impl Check for C19 {
         let pair = (scenario_strategy(&p), prop_oneof![2 => Just(u16::MAX), 3 => any::<u16>()], any::<bool>()).prop_map(|(sc, drop_after, run_tail)| Case { sc, drop_after, run_tail, world: None, codec: None });
         // Client / Server teardown: World scripts with a short settle phase, so that endpoints are dropped while
         // connections are pending, active (data in flight), closing or lingering
-        let sp = crate::sim::script::ScriptParams { max_clients: tier.pick(3, 6), max_ops: tier.pick(80, 250), faults: true, disconnect_weight: 2, drop_weight: 1, send_weight: 10, timeouts: vec![3000, 20000], big_jumps: false, settle_us: 0, replay_weight: 1, vary_server_limits: true, stray_weight: 1 };
+        let sp = crate::sim::script::ScriptParams { max_clients: tier.pick(3, 6), max_ops: tier.pick(80, 250), faults: true, disconnect_weight: 2, drop_weight: 1, send_weight: 10, timeouts: vec![3000, 20000], big_jumps: false, settle_us: 0, replay_weight: 1, vary_server_limits: true, stray_weight: 1, reconnect_weight: 1 };
         let q = GenParams { max_ticks: 1, max_sends: 1, faults: false, tail: false, max_fates: 1, ..GenParams::default() };
         let world = (scenario_strategy(&q), crate::sim::script::wcase_strategy(&sp), prop_oneof![Just(0u64), Just(300_000u64), Just(3_000_000u64), Just(25_000_000u64)]).prop_map(|(sc, mut wc, settle)| {
             wc.settle_us = settle;
